@@ -74,13 +74,13 @@ type failure struct {
 func runMain(args []string) {
 	switch args[0] {
 	case "check":
-		os.Exit(runCheck(args[1:]))
+		exitClean(runCheck(args[1:]))
 	case "replay":
-		os.Exit(runReplay(args[1:]))
+		exitClean(runReplay(args[1:]))
 	case "selftest":
-		os.Exit(runSelftest(args[1:]))
+		exitClean(runSelftest(args[1:]))
 	case "list":
-		os.Exit(runList(args[1:]))
+		exitClean(runList(args[1:]))
 	default:
 		fmt.Fprintln(os.Stderr, "unknown command", args[0])
 		os.Exit(2)
@@ -648,4 +648,12 @@ func runList(args []string) int {
 		fmt.Println(k)
 	}
 	return 0
+}
+
+// exitClean removes this process's scratch directory (solver queries, overlay files) and exits.
+func exitClean(code int) {
+	if scratchDir != "" {
+		os.RemoveAll(scratchDir)
+	}
+	os.Exit(code)
 }
